@@ -517,7 +517,7 @@ class M_get_node_order(MgrContract):
     replayable = True
     name = 'DAGRunConcurrentManager._get_node_order'
     returns = 'list'
-    props = ('C04', 'C06', 'C11', 'C03')
+    props = ('C04', 'C06', 'C11', 'C03', 'C19')
     doc = ('the nodes of dag that are not yet processed (all nodes if dag.is_recurrent), each once, '
            'in topological and non-decreasing-depth order')
 
